@@ -121,6 +121,11 @@ pub struct SelectState {
     pub start_time: Option<u64>,
     /// The receive function being executed (index, message value), if any
     pub receiving: Option<(usize, Value)>,
+    /// Process sources whose worker has not answered the await of this select yet. The select
+    /// evaluates no source while this is non-empty: until the answer is in, "not known to have
+    /// finished" does not mean "has not finished", and a later source must not win over a
+    /// target that is in fact complete.
+    pub unanswered: Vec<ProcessId>,
 }
 
 #[derive(Debug)]
